@@ -168,6 +168,13 @@ Stray_       == "stray" \in Extras /\ \E k \in {"ok", "err", "timeout"} :
 Toggle       == "toggle" \in Extras /\
                   Do([m |-> "update_config", s |-> w.c.admin,
                       up |-> [feecfg |-> [fee |-> w.c.cfg.fee, treasury |-> IF w.c.cfg.treasury = "" THEN "treasury" ELSE "", valid |-> TRUE]]])
+\* the admin moves the contract to another IBC channel; sequence numbers are per channel, so the next
+\* transfer is numbered by the new channel's counter (here: it starts again at 1)
+Rechannel    == "rechannel" \in Extras /\ w.c.cfg.channel = Channel /\
+                  Do([m |-> "update_config", s |-> w.c.admin,
+                      up |-> [proto |-> [channel |-> "channel-2", minStake |-> w.c.cfg.minStake, oracle |-> w.c.cfg.oracle, valid |-> TRUE]]])
+NewCounter   == "rechannel" \in Extras /\ w.c.cfg.channel = "channel-2" /\ w.ibc.next > 1 /\ ~w.led.forced /\
+                  (\A p \in w.ibc.fly : FALSE) /\ Do([m |-> "ibc_set_next", n |-> 1])
 \* ("matrix": only by principals that are not the admin - all refused, no new states; "matrixadmin": by everyone)
 Matrix       == ("matrix" \in Extras \/ "matrixadmin" \in Extras) /\ \E u \in Principals :
                   /\ ("matrixadmin" \in Extras \/ u # w.c.admin)
@@ -197,7 +204,7 @@ Resume       == AdminOps /\ w.c.stopped /\ \E u \in Principals, k \in ResumeScal
 Tick         == \E t \in TimePoints : Do(TimeCall(t))
 
 Next == Stake \/ StakeVariants \/ Unstake \/ Submit \/ Withdraw_ \/ Rewards \/ ReturnBatch \/ WrongSender \/ Direct \/ TopUp
-        \/ Relay \/ Stray_ \/ Recover_ \/ Forced \/ FeeWithdraw_ \/ Breaker \/ Resume \/ Matrix \/ Toggle \/ Tick
+        \/ Relay \/ Stray_ \/ Recover_ \/ Forced \/ FeeWithdraw_ \/ Breaker \/ Resume \/ Matrix \/ Toggle \/ Rechannel \/ NewCounter \/ Tick
 
 Spec == Init /\ [][Next]_vars
 
